@@ -26,7 +26,7 @@ def sqlint(ast, env, dialect):
         return False, _v(v)
     if op in ('COLUMN', 'PARAM'):
         return env[_colkey(ast)]
-    if op == 'LENGTH':
+    if op in ('LENGTH', 'ARRAY_LENGTH'):
         return env.get('__lennull__', False), env['__len__']
     if op in ('ADD', 'SUB'):
         n1, v1 = sqlint(ast[1], env, dialect); n2, v2 = sqlint(ast[2], env, dialect)
